@@ -130,7 +130,9 @@ LISTS = [[1, 2], [0, 1], [-1, 0, 1], [1.0], [0], [2, 1], [1, 0],
          [LAM_M / 8, 1e3, -10.5], [10.5, 0.0, -10.5, 1.0],
          # long stacks (more planes than any block size one might choose)
          [0.25 * (k + 1) for k in range(17)],
-         [0.5 * (k - 16) for k in range(33) if k != 16]]
+         [0.5 * (k - 16) for k in range(33) if k != 16],
+         # nearly, not exactly, evenly spaced (differences equal to 1e-6)
+         [10, 20, 30.00005], [-40, -30.00003, -20, -10]]
 OPT_COMBOS = [(0, False), (1, False), (3, False),
               (0, LAM_M), (1, LAM_M), (3, LAM_M)]
 BIG = {"quick": [(15, 16), (32, 31), (63, 64)],
